@@ -5,11 +5,11 @@ from ..world import world_from, dec_val, enc_val
 from . import dep_common as D
 
 CLAIM = dict(
-    text="Coq theorems on the model of value-dependent dispatch (Model/Dep.v: isinstance of every constructor, the checks the codegen of each type EMITS, the if-chain / lookup-table / counting strategy selection of generate_dependent_dispatch, the per-rank dispatchers with fall-through of typemap.resolve): the emitted check of every type computes isinstance -- for a value-dependent type on the instances of its bound, and under | and & each dependent member is wrapped in its bound test, so a user condition is never reached outside its bound (C10_emit_is_instance, any nesting; full since the repairs of KF-14 / KF-50 / KF-51); whatever strategy is selected, a handler returned by a rank's dispatcher has every one of its emitted checks true (C10_chain_sound, C10_count_sound); under counting the dispatcher returns the unique handler whose conjunction holds, falls through when none holds and raises the ambiguity when several hold (C10_count_exact); the if-chain returns the first handler whose conjunction holds (C10_chain_first) and equals counting when the conditions are exclusive (C10_chain_is_count_when_exclusive); a value-dependent type with class bound b is strictly more specific, from both sides, than every class comparable with b (C10_preferred_over_bound_classes); refuted: call_next from a method of a dependent rank skips its same-rank siblings (C10_next_sibling_refuted, KF-08). Tie to /repo: generated mixtures of dependent and static methods (user predicates with random truth tables that log every value they are asked about and answer with truthy / falsy non-bools, the built-in value types, | and & combinations, 1-2 positions, keyword-only dependent parameters, priorities) are run over a value corpus through the real Ovld -- as a plain function and as the methods of one class body -- and through the extracted model: the method entered / error kind must agree exactly; the property oracle (independent of the model) checks on the implementation that every entered method's parameters are isinstance of their annotations, that every predicate was only asked about instances of its bound, and compares with a Python reading of the documented rule. Which dependent methods are 'otherwise unordered': for two parametrised conditions on the same bound the order is exactly what their typing.Any wildcards say (C10_same_bound_order), that comparison is FuncDependentType.__lt__ as regenerated from /repo's source on every run (C10_leaf_wildcards), it is slot-wise -- strictly more specific iff the other has a wildcard wherever this one has one and one more somewhere (C10_wildcards_slotwise) -- and crossing wildcards order neither way (C10_wildcards_crossing_unordered), so both holding is the ambiguity of C10_count_exact; directed programs with a three-parameter user condition run every such pair through the real dispatch. Which generated strategy serves a rank: the per-position decision for Literal-like types (shared key -> counting, fewer than four types -> if-chain, else table) and the final choice (table / if-chain / counting) are regenerated from recode.py on every run and proved to be the decisions the model's choose_strategy is built from (C10_leaf_keyable, C10_leaf_final_choice).",
+    text="Coq theorems on the model of value-dependent dispatch (Model/Dep.v: isinstance of every constructor, the checks the codegen of each type EMITS, the if-chain / lookup-table / counting strategy selection of generate_dependent_dispatch, the per-rank dispatchers with fall-through of typemap.resolve): the emitted check of every type computes isinstance -- for a value-dependent type on the instances of its bound, and under | and & each dependent member is wrapped in its bound test, so a user condition is never reached outside its bound (C10_emit_is_instance, any nesting; full since the repairs of KF-14 / KF-50 / KF-51); whatever strategy is selected, a handler returned by a rank's dispatcher has every one of its emitted checks true (C10_chain_sound, C10_count_sound); under counting the dispatcher returns the unique handler whose conjunction holds, falls through when none holds and raises the ambiguity when several hold (C10_count_exact); the if-chain returns the first handler whose conjunction holds (C10_chain_first) and equals counting when the conditions are exclusive (C10_chain_is_count_when_exclusive); a value-dependent type with class bound b is strictly more specific, from both sides, than every class comparable with b (C10_preferred_over_bound_classes); refuted: call_next from a method of a dependent rank skips its same-rank siblings (C10_next_sibling_refuted, KF-08). Tie to /repo: generated mixtures of dependent and static methods (user predicates with random truth tables that log every value they are asked about and answer with truthy / falsy non-bools, the built-in value types, | and & combinations, 1-2 positions, keyword-only dependent parameters, priorities) are run over a value corpus through the real Ovld -- as a plain function and as the methods of one class body -- and through the extracted model: the method entered / error kind must agree exactly; the property oracle (independent of the model) checks on the implementation that every entered method's parameters are isinstance of their annotations, that every predicate was only asked about instances of its bound, and compares with a Python reading of the documented rule. Which dependent methods are 'otherwise unordered': for two parametrised conditions on the same bound the order is exactly what their typing.Any wildcards say (C10_same_bound_order), that comparison is FuncDependentType.__lt__ as regenerated from /repo's source on every run (C10_leaf_wildcards), it is slot-wise -- strictly more specific iff the other has a wildcard wherever this one has one and one more somewhere (C10_wildcards_slotwise) -- and crossing wildcards order neither way (C10_wildcards_crossing_unordered), so both holding is the ambiguity of C10_count_exact; directed programs with a three-parameter user condition run every such pair through the real dispatch. Which generated strategy serves a rank: the per-position decision for Literal-like types (shared key -> counting, fewer than four types -> if-chain, else table) and the final choice (table / if-chain / counting) are regenerated from recode.py on every run and proved to be the decisions the model's choose_strategy is built from (C10_leaf_keyable, C10_leaf_final_choice). The clause 'when the condition does not hold, dispatch continues as if that method were absent' is refuted on the faithful model (C10_absent_refuted, KF-56: a non-holding value-dependent method still dominates other candidates when the ranks are formed); deviations of that class are recognised by re-running the call on a function built without the non-holding dependent methods.",
     note="Trusted: as C02, plus the value encodings and the truth tables of user predicates (tables are data for the model; the real predicates are generated from the same tables). Regexp is modelled for literal patterns with ^ / $ anchors only. Membership tests follow Python's == (True == 1): Model/Ty.v val_pyeq.",
     technique="Coq proof (strategy soundness, emitted check vs isinstance) + differential correspondence over a value corpus", design="6 C10")
 
-THEOREMS = ["C10_emit_is_instance", "C10_count_exact", "C10_chain_first", "C10_chain_is_count_when_exclusive", "C10_chain_sound", "C10_count_sound", "C10_preferred_over_bound_classes", "C10_next_sibling_refuted", "C10_leaf_wildcards", "C10_same_bound_order", "C10_wildcards_slotwise", "C10_wildcards_crossing_unordered", "C10_leaf_keyable", "C10_leaf_final_choice"]
+THEOREMS = ["C10_emit_is_instance", "C10_count_exact", "C10_chain_first", "C10_chain_is_count_when_exclusive", "C10_chain_sound", "C10_count_sound", "C10_preferred_over_bound_classes", "C10_next_sibling_refuted", "C10_leaf_wildcards", "C10_same_bound_order", "C10_wildcards_slotwise", "C10_wildcards_crossing_unordered", "C10_leaf_keyable", "C10_leaf_final_choice", "C10_absent_refuted"]
 ASSUMPTIONS = ["user predicates are total on the corpus (they are table lookups) so that only the library's own checks can raise"]
 
 
@@ -116,12 +116,38 @@ def check(ctx, prog, stats, samples):
                 if artifact or (exp == ["ambig"] and D.kf01_shape(w, b, prog["defs"], vs, r["impl"], kws)):
                     ctx.known_hit("KF-01", case)
                     stats["kf01"] += 1
+                elif kf56_class(prog, w, b, vs, kws, exp):
+                    ctx.known_hit("KF-56", case)
+                    stats["kf56"] += 1
                 else:
                     ctx.violation(f"implementation {r['impl']} deviates from the documented rule {exp}", case)
             else:
                 stats["rule_agreed"] += 1
     if len(samples) < 2:
         samples.append({"defs": prog["defs"], "call": prog["calls"][0], "result": {k: res[0][k] for k in ("impl", "model", "entered")}})
+
+
+def kf56_class(prog, w, b, vs, kws, exp):
+    """KF-56: the outcome becomes the documented rule's verdict once the value-dependent methods whose conditions do not
+    hold for this call are taken out of the function (a non-holding method must count as absent, and does not)"""
+    def has_dep(t):
+        return D.is_dep_enc(t) or (t[0] in (2, 3) and any(has_dep(x) for x in t[1:]))
+    rest = []
+    removed = 0
+    for d in prog["defs"]:
+        slots = list(d["pos"]) + [t for (k, t, req) in d.get("kw", [])]
+        if any(has_dep(t) for t in slots) and len(d["pos"]) == len(vs):
+            dkw = {int(k): t for (k, t, req) in d.get("kw", [])}
+            vals = list(vs) + [kws[k] for k in sorted(dkw) if k in kws]
+            if len(vals) == len(slots) and not all(py_isinstance(v, b.ty(t)) is True for v, t in zip(vals, slots)):
+                removed += 1
+                continue
+        rest.append(dict(d, body="ret"))
+    if not removed or not rest:
+        return False
+    fb = progs.Built(world_from(prog["spec"]), rest, utab=prog.get("utab"))
+    out = D.impl_kind(fb.call([dec_val(enc_val(v, w), fb.w) for v in vs], {f"k{k}": v for k, v in kws.items()})[0])
+    return out == exp
 
 
 def c06_hookvshook(prog):
@@ -199,7 +225,7 @@ def check_next(ctx, stats):
 def run(ctx):
     stats = collections.Counter()
     stats = {"evaluations": 0, "hist": collections.Counter(), "distinct": set(), "kf01": 0, "kf08": 0, "programs": 0,
-             "predicate_evaluations": 0, "rule_silent": 0, "rule_agreed": 0, "next_steps": 0, "method_mode_calls": 0, "directed_kw": 0, "directed_nested": 0, "directed_wildcard": 0, "kf23": 0}
+             "predicate_evaluations": 0, "rule_silent": 0, "rule_agreed": 0, "next_steps": 0, "method_mode_calls": 0, "directed_kw": 0, "directed_nested": 0, "directed_wildcard": 0, "kf23": 0, "kf56": 0}
     samples = []
     n = 80 if ctx.quick() else 4000
     for prog in D.directed_kw_programs(ctx.rng):
@@ -227,14 +253,14 @@ def run(ctx):
             "samples": samples, "programs": stats["programs"], "outcome_histogram": dict(stats["hist"]),
             "user_condition_evaluations_checked_against_bound": stats["predicate_evaluations"],
             "calls_agreeing_with_documented_rule": stats["rule_agreed"], "calls_where_rule_is_silent": stats["rule_silent"],
-            "deviations_attributed_to_KF-01": stats["kf01"], "cycle_errors_attributed_to_KF-23": stats["kf23"], "call_next_steps_checked": stats["next_steps"], "directed_programs_every_strategy_branch_with_keyword": stats["directed_kw"], "directed_programs_nested_combinations": stats["directed_nested"], "directed_programs_parametrised_conditions_with_wildcards": stats["directed_wildcard"], "calls_repeated_as_methods_of_a_class": stats["method_mode_calls"],
+            "deviations_attributed_to_KF-01": stats["kf01"], "cycle_errors_attributed_to_KF-23": stats["kf23"], "deviations_attributed_to_KF-56": stats["kf56"], "call_next_steps_checked": stats["next_steps"], "directed_programs_every_strategy_branch_with_keyword": stats["directed_kw"], "directed_programs_nested_combinations": stats["directed_nested"], "directed_programs_parametrised_conditions_with_wildcards": stats["directed_wildcard"], "calls_repeated_as_methods_of_a_class": stats["method_mode_calls"],
             "call_next_deviations_attributed_to_KF-08": stats["kf08"], "traces_validated_against_impl": stats["evaluations"]}
 
 
 def replay(ctx, payload):
     """re-run the recorded program through the same comparisons; reproduced iff it raises a violation again"""
     stats = {"evaluations": 0, "hist": collections.Counter(), "distinct": set(), "kf01": 0, "kf08": 0, "programs": 0,
-             "predicate_evaluations": 0, "rule_silent": 0, "rule_agreed": 0, "next_steps": 0, "method_mode_calls": 0, "directed_kw": 0, "directed_nested": 0, "directed_wildcard": 0, "kf23": 0}
+             "predicate_evaluations": 0, "rule_silent": 0, "rule_agreed": 0, "next_steps": 0, "method_mode_calls": 0, "directed_kw": 0, "directed_nested": 0, "directed_wildcard": 0, "kf23": 0, "kf56": 0}
     before = len(ctx.violations)
     check(ctx, payload["case"], stats, [])
     return len(ctx.violations) > before
@@ -247,6 +273,10 @@ def replay_finding(ctx, e):
             return e["status"] == "open"
         res, w, b = D.eval_dep_program(wit)
         return res[0]["impl"] == wit["expect_impl"]
+    if e["id"] == "KF-56":
+        res, w, b = D.eval_dep_program(wit)
+        res2, _, _ = D.eval_dep_program(dict(wit, defs=[d for d in wit["defs"] if d["id"] != wit["without"]]))
+        return res[0]["impl"] == wit["expect_impl"] and res2[0]["impl"] == wit["expect_without"]
     if e["id"] == "KF-08":
         from ..world import World
         b = progs.Built(World([]), wit["defs"], utab=wit["utab"])
